@@ -114,7 +114,11 @@ def check_sequence(data, seq, path):
     import ast
 
     try:
-        copies = [Pickled.load(data), Pickled.load(data)]
+        # copy 1 is parsed as the second member of a stack (non-zero stream offset)
+        from fickling.fickle import StackedPickle
+
+        second = StackedPickle.load(pickle.dumps(None, protocol=2) + data)
+        copies = [Pickled.load(data), second[1] if len(second) >= 2 else Pickled.load(data)]
         # the quantifier is over ACCEPTED pickles: parse, interpret and unparse succeed
         ast.unparse(Pickled.load(data).ast)
     except RecursionError:
